@@ -1089,24 +1089,25 @@ class CSSMatch(_DocumentNav):
         """Match element if it contains text."""
 
         match = True
-        content = None  # type: str | Sequence[str] | None
+        content = None  # type: str | None
+        own_content = None  # type: Sequence[str] | None
         for contain_list in contains:
-            if content is None:
-                if contain_list.own:
-                    content = self.get_own_text(el, no_iframe=self.is_html)
-                else:
-                    content = self.get_text(el, no_iframe=self.is_html)
+            if contain_list.own:
+                if own_content is None:
+                    own_content = self.get_own_text(el, no_iframe=self.is_html)
+            elif content is None:
+                content = self.get_text(el, no_iframe=self.is_html)
             found = False
             for text in contain_list.text:
                 if contain_list.own:
-                    for c in content:
+                    for c in own_content:  # type: ignore[union-attr]
                         if text in c:
                             found = True
                             break
                     if found:
                         break
                 else:
-                    if text in content:
+                    if text in content:  # type: ignore[operator]
                         found = True
                         break
             if not found:
